@@ -219,6 +219,8 @@ CHECKS["C06"] = {
         rapid("rejected", "^TestRejected$", 240, 8000, qs=8, ts=16),
         rapid("sched", "^TestSchedRefused$", 300, 4000, qs=6, ts=16),
         plain("schedenum", "^TestSchedRefusedEnum$", qs=16, ts=16, ttimeout=3300),
+        fuzz("fuzz_requests", "FuzzRequests", "300s"),
+        dict(fuzz("fuzz_requests_empty", "FuzzRequests", "180s"), env={"VERIF_FUZZ_CORPUS": "empty"}),
     ],
 }
 
